@@ -27,14 +27,13 @@ the whole case):
 
 Defect models (used only to *classify* a mismatch as a listed finding, never to accept it silently):
 
-* `kf5` (KF-C09-5)  tokens are delimited by blank/tab/CR/LF only, but the text of a token that its value, its being
-                    a reserved word / an option / a sole symbol reference / a here-document start are derived
-                    from has every Unicode white-space character removed at both ends
-                    (`TokenStream.consume`: `source[...].strip()`).
 * `kf6` (KF-C09-6)  tokens are delimited by blank/tab/CR/LF only, but "is the rest of the line blank?" is decided
                     with `str.isspace()` / `str.strip()` (all Unicode white space): a last token of a line that
                     consists of such characters only is dropped (and stays the look-ahead token when the parser
                     then moves to the end of / past the line).
+* `kf7` (KF-C09-7)  the white space between the name of an instruction and its arguments is skipped with
+                    `str.isspace()`: a first argument (or the start of it) that consists of Unicode white space
+                    other than blank/tab is dropped.
 """
 import re
 
@@ -59,23 +58,18 @@ UNSUPPORTED_TEXT_SOURCE_OPTIONS = ('-contents-of', '-stdout-from', '-stderr-from
 
 
 class Tok:
-    __slots__ = ('kind', 'start', 'end', 'frags', 'vsrc', 'vfrags')
+    __slots__ = ('kind', 'start', 'end', 'frags', 'vsrc')
 
     def __init__(self, kind, start, end=None, frags=None):
         self.kind = kind  # 'tok' | 'null' | 'err'
         self.start = start
         self.end = end
         self.frags = frags or []
-        self.vsrc = None  # the source text that the meaning of the token is derived from (defect model kf5)
-        self.vfrags = self.frags
+        self.vsrc = None  # the source text of the token
 
     @property
     def string(self):
         return ''.join(t for _, t in self.frags)
-
-    @property
-    def vstring(self):
-        return ''.join(t for _, t in self.vfrags)
 
     @property
     def all_naked(self):
@@ -112,12 +106,6 @@ def next_token(src: str, pos: int, ws: str = ASCII_WS) -> Tok:
             frags.append((NAKED, src[i:j]))
             i = j
     return Tok('tok', start, i, frags)
-
-
-def quote_fragments(token_source: str):
-    """The fragments of the source text of one well formed token."""
-    t = next_token(token_source, 0, '')
-    return t.frags if t.kind == 'tok' else []
 
 
 def tokenize(src: str, ws: str = ASCII_WS):
@@ -164,18 +152,18 @@ class Unsupported(Exception):
 
 
 class Reader:
-    def __init__(self, src, pos, symbols, ws_extra='', eol_uni=False, xref=False, strict=False,
-                 kf5=False, kf6=False):
+    def __init__(self, src, pos, symbols, ws_extra='', eol_uni=False, xref=False, strict=False, kf6=False,
+                 kf7=False):
         self.src = src
         self.pos = pos
         self.symbols = symbols  # name -> ('string', str) | ('list', [str]) | ('path', str)
-        self.ws = ASCII_WS + ('' if (kf5 or kf6) else ws_extra)  # what separates tokens
+        self.ws = ASCII_WS + ('' if (kf6 or kf7) else ws_extra)  # what separates tokens
         self.line_ws = ALL_WS if kf6 else self.ws  # what is blank when asking "is the rest of the line blank?"
         self.eol_ws = ALL_WS if eol_uni else self.ws  # what is removed around TEXT-UNTIL-END-OF-LINE
         self.xref = xref
         self.strict = strict
-        self.kf5 = kf5
         self.kf6 = kf6
+        self.kf7 = kf7
         self._head = None
         self._head_pos = None
         self.invalid = False  # a reference that cannot be resolved was met (reported after the syntax is read)
@@ -186,9 +174,6 @@ class Reader:
             t = next_token(self.src, self.pos, self.ws)
             if t.kind == 'tok':
                 t.vsrc = self.src[t.start:t.end]
-                if self.kf5:
-                    t.vsrc = t.vsrc.strip(ALL_WS)
-                    t.vfrags = quote_fragments(t.vsrc)
             self._head = t
             self._head_pos = self.pos
         return self._head
@@ -259,7 +244,7 @@ class Reader:
 
     def token_value(self, t: Tok) -> str:
         parts = []
-        for k, text in t.vfrags:
+        for k, text in t.frags:
             if k == HARD:
                 parts.append([HARD, text])
             elif self.xref and parts and parts[-1][0] != HARD:
@@ -270,13 +255,13 @@ class Reader:
 
     def sole_reference(self, t: Tok):
         if t.kind == 'tok' and t.all_naked:
-            m = REF_RE.fullmatch(t.vstring)
+            m = REF_RE.fullmatch(t.string)
             if m:
                 return m.group(1)
         return None
 
     def check_reserved(self, t: Tok):
-        if t.vstring in RESERVED:
+        if t.string in RESERVED:
             if t.all_naked:
                 raise SyntaxErr('reserved word')
             if self.strict and any(k == NAKED for k, _ in t.frags):
@@ -430,10 +415,17 @@ def _read_host(r: Reader, host: str):
             r.require_eol()
             return ['str', v], r.pos
         if host == 'fname':
+            if r.kf7:
+                # the arguments start directly after the instruction name
+                while r.pos < len(r.src) and r.src[r.pos] in ALL_WS and r.src[r.pos] != '\n':
+                    r.pos += 1
             # PATH without RELATIVITY: FILE-NAME is a STRING (a token that looks like an option is not modelled)
             t = r.require_token()
             if t.all_naked and t.vsrc.startswith('-'):
                 raise Unsupported('option-like file name')
+            for m in REF_RE.finditer(t.string):
+                if r.symbols.get(m.group(1), ('string', ''))[0] != 'string':
+                    raise Unsupported('list / path symbol in a file name')
             v = r.string_()
             r.require_eol()
             return ['str', v], r.pos
